@@ -682,6 +682,13 @@ fn reads_under_scheduler(ctx: &mut Ctx, stats: &mut ReadStats) {
 			}
 			prefix = crate::sched::next_prefix_within(&res.log, fixed);
 			count += 1;
+			// the enumeration is also bounded by the shard's time budget (a schedule costs ~0.1 ms natively but
+			// tens of ms under Miri / TSan): what was not reached is reported as not enumerated, never as held
+			if count % 8 == 0 && prefix.is_some() && !ctx.replaying() && !ctx.time_left(0.92) {
+				ctx.note(&format!("schedule enumeration for {}x{}{} stopped by the time budget after {} schedules", n_cb, n_reads, if with_stop { "+stop" } else { "" }, count));
+				capped = true;
+				break;
+			}
 			if count >= cap {
 				ctx.note(&format!("schedule enumeration for {}x{}{} capped at {} per shard", n_cb, n_reads, if with_stop { "+stop" } else { "" }, cap));
 				capped = true;
